@@ -198,6 +198,57 @@ def laplacianN (den : Nat) (tf tb : Table) (shape : Nat → Nat) (ndim : Nat) (c
 
 end
 
+/-! ### The loops over the axes of `Gradient/Divergence/Laplacian._call` as data (round 5)
+
+The translator reads the one `for axis in range(ndim)` loop of each `_call` into
+`Gen.accProg`; `loopAccN` / `loopCompN` interpret it (executed by the driver's `ndn` op). -/
+
+/-- one `finite_diff(…, out=tmp)` + update of the loop body -/
+structure AccStep where
+  /-- `method=`: `none` is `self.method`, `some m` a literal -/
+  meth : Option Method
+  /-- `dx=dx[axis] ** 2` (`false`: `dx[axis]`) -/
+  dxSq : Bool
+  /-- `out_arr -= tmp` (`false`: `+=`, or `out_arr[:] = tmp` on the first axis) -/
+  neg : Bool
+  /-- the input is `x[axis]` (`false`: the whole `x`) -/
+  comp : Bool
+  deriving Repr, DecidableEq
+
+structure AccProg where
+  /-- the loop writes result component `axis` (Gradient); `false`: accumulates one array -/
+  perAxis : Bool
+  steps : List AccStep
+  deriving Repr, DecidableEq
+
+section
+variable {K : Type} [Add K] [Sub K] [Mul K] [Div K] [OfNat K 0] [IntCast K] [NatCast K]
+
+/-- the array one step's `finite_diff` call produces, at `x` -/
+def stepValN (den : Nat) (tblOf : Method → Table) (m : Method) (shape : Nat → Nat) (c : K)
+    (dx : Nat → K) (h : Nat → IdxN → K) (a : Nat) (s : AccStep) (x : IdxN) : K :=
+  fdAxisN den (tblOf (s.meth.getD m)) shape a c (if s.dxSq then dx a * dx a else dx a)
+    (if s.comp then h a else h 0) x
+
+/-- the updates of one pass through the loop body, in program order -/
+def bodyN (den : Nat) (tblOf : Method → Table) (m : Method) (shape : Nat → Nat) (c : K)
+    (dx : Nat → K) (h : Nat → IdxN → K) (steps : List AccStep) (x : IdxN) (acc : K) (a : Nat) :
+    K :=
+  steps.foldl (fun r s => if s.neg then r - stepValN den tblOf m shape c dx h a s x
+                          else r + stepValN den tblOf m shape c dx h a s x) acc
+
+/-- accumulating loop (`Divergence`, `Laplacian`): `out = 0; for axis: body` -/
+def loopAccN (den : Nat) (tblOf : Method → Table) (m : Method) (shape : Nat → Nat) (ndim : Nat)
+    (c : K) (dx : Nat → K) (h : Nat → IdxN → K) (steps : List AccStep) : IdxN → K :=
+  fun x => (List.range ndim).foldl (bodyN den tblOf m shape c dx h steps x) 0
+
+/-- component loop (`Gradient`): component `a` is what pass `a` writes -/
+def loopCompN (den : Nat) (tblOf : Method → Table) (m : Method) (shape : Nat → Nat)
+    (c : K) (dx : Nat → K) (f : IdxN → K) (steps : List AccStep) : Nat → IdxN → K :=
+  fun a x => bodyN den tblOf m shape c dx (fun _ => f) steps x 0 a
+
+end
+
 /-! ### The inner product of the space (round 4)
 
 `DiscretizedSpace.inner(x, y) = Σ weight(point) · x · conj(y)`, the weight of a grid point being
